@@ -5,6 +5,7 @@ package main
 
 import (
 	"fmt"
+	"go/constant"
 	"go/token"
 	"go/types"
 	"math"
@@ -122,6 +123,21 @@ func narrowingSites(c *Ctx, fns []*ssa.Function) []convSite {
 					}
 					if !sameVal(x, src) {
 						continue
+					}
+					// a constant bound must lie inside the destination range
+					dr0, _ := rangeOf(cv.Type())
+					if kc, isC := y.(*ssa.Const); isC && kc.Value != nil {
+						kf := constFloat(kc)
+						switch op {
+						case token.GEQ, token.GTR:
+							if kf < dr0.lo-1 {
+								continue
+							}
+						case token.LEQ, token.LSS:
+							if kf > dr0.hi+1 {
+								continue
+							}
+						}
 					}
 					switch op {
 					case token.GEQ, token.GTR:
@@ -380,4 +396,9 @@ func boundsOn(b *ssa.BasicBlock, v ssa.Value) (lower, upper bool) {
 		}
 	}
 	return
+}
+
+func constFloat(k *ssa.Const) float64 {
+	f, _ := constant.Float64Val(constant.ToFloat(k.Value))
+	return f
 }
